@@ -647,6 +647,25 @@ func guardFact(p *packages.Package, fd *ast.FuncDecl, access ast.Expr, kind stri
 			if encloses || (exits && is.End() <= access.Pos()) {
 				found = true
 			}
+			// short-circuit form: if len(x) > 0 && x[len(x)-1] == … — the access is a later conjunct of the condition
+			if is.Cond.Pos() <= access.Pos() && access.End() <= is.Cond.End() {
+				conj := flattenAnd(is.Cond)
+				for i, c := range conj {
+					if !(c.Pos() <= access.Pos() && access.End() <= c.End()) {
+						continue
+					}
+					for _, prev := range conj[:i] {
+						ast.Inspect(prev, func(x ast.Node) bool {
+							if ce, ok := x.(*ast.CallExpr); ok {
+								if id, ok := ce.Fun.(*ast.Ident); ok && id.Name == "len" && len(ce.Args) == 1 && types.ExprString(ce.Args[0]) == base {
+									found = true
+								}
+							}
+							return true
+						})
+					}
+				}
+			}
 		case "clamp":
 			is, ok := n.(*ast.IfStmt)
 			if !ok || is.End() > access.Pos() {
